@@ -189,7 +189,8 @@ func (m *MemSSA) addrKey(v ssa.Value) string {
 		if !ok {
 			return ""
 		}
-		return k + "." + st.Field(v.Field).Name()
+		_ = st
+		return k + "." + canonFieldName(v.X.Type(), v.Field)
 	case *ssa.IndexAddr:
 		if c, ok := v.Index.(*ssa.Const); ok {
 			if _, isArr := deref(v.X.Type()).Underlying().(*types.Array); isArr {
